@@ -575,6 +575,17 @@ def part_corpus(ctx, cfgs):
     ncalls = 8 if ctx.tier == "quick" else 40
     usable = []
     skipped = {}
+    if ctx.tier == "quick":
+        import zlib
+        always = ("regress/", "corpus/range_narrowing", "corpus/callback_storage", "corpus/callback_transient", "corpus/fallback_selectors")
+        keep = []
+        for job in jobs:
+            h = zlib.crc32((job["name"] + ":" + str(ctx.seed)).encode())
+            if job["name"].startswith(always) or (job["name"].startswith("examples/") and h % 3 == 0) or \
+                    (job["name"].startswith("corpus/") and h % 2 == 0):
+                keep.append(job)
+        ctx.corr["corpus_sampled_out_this_seed"] = [j["name"] for j in jobs if j not in keep]
+        jobs = keep
     for job in jobs:
         try:
             # contracts whose behaviour is decided by argument relations get more calls
@@ -609,11 +620,14 @@ def part_corpus(ctx, cfgs):
         if job["min_evm"] == "cancun" and cfg.evm in R.PRE_CANCUN:
             return False
         if j >= n_base:
-            return bool(job.get("regress"))
+            if not job.get("regress"):
+                return False
+            # thorough: every single flag; quick: only the flags the regression is about (named in it)
+            return ctx.tier != "quick" or any(f.replace("disable_", "") in job["name"] for f in cfg.flags)
         if job.get("regress"):
             return True
         if ctx.tier == "quick":
-            return cfg.name in quick_set(job, 1 if job["name"].startswith("examples/") else 3)
+            return cfg.name in quick_set(job, 1 if job["name"].startswith("examples/") else 2)
         return True
     work = [(k, j) for k, job in enumerate(usable) for j, cfg in enumerate(cfgs) if wanted(job, j, cfg)]
     out = {}
@@ -675,3 +689,11 @@ def run(ctx):
     ctx.trusted += ["Coq 8.16.1 kernel + vm_compute", "introspection of vyper.venom module data (pass lists, PASS_FLAG_MAP, required_* attributes)",
                     "pyrevm (EVM)"]
     ctx.assumptions += ["optimisation passes are not proved semantics preserving; behavioural invariance holds for the programs run"]
+
+
+def prebuild(ctx):
+    """Called by setup_cmd: extract the pass tables and compile the C02 development once (content-keyed reuse afterwards:
+    the check recompiles GenPassOrder.v / PropsC02.v only if the extracted tables changed)."""
+    data = PO.extract()
+    (COQ / "C02" / "GenPassOrder.v").write_text(PO.render(data))
+    ctx.coq_build_cached(["C02/PassOrder.v", "C02/PassOrderProofs.v", "C02/GenPassOrder.v", "C02/PropsC02.v"])
